@@ -642,12 +642,13 @@ def reserve_shape(ctx, RM, o):
     neg_guard = False
     for n in gg.nodes.values():
         if n.kind == 'cond':
-            r = cmp_norm(N, n.ast, None, True)
-            if r and r[1] == '<' and len(r[0].terms) == 1 and list(r[0].terms.values())[0] == 1 and r[0].const == 0:
-                tr = gg.reach([m for l, m in gg.succ[n.id] if l == 'T'], follow=lambda l: l != 'exc')
-                if any(x.id in tr for x in rais) and gg.exit not in gg.reach([m for l, m in gg.succ[n.id] if l == 'T'], follow=lambda l: l != 'exc') or \
-                        any(x.id in tr for x in rais):
-                    neg_guard = True
+            for truth in (True, False):       # `if amount < 0: raise` or the inverted `if amount >= 0: ... else: raise`
+                r = cmp_norm(N, n.ast, FrameEnv(n.frame), truth)
+                if r and r[1] == '<' and len(r[0].terms) == 1 and list(r[0].terms.values())[0] == 1 and r[0].const == 0:
+                    lbl = 'T' if truth else 'F'
+                    tr = gg.reach([m for l, m in gg.succ[n.id] if l == lbl], follow=lambda l: l != 'exc')
+                    if any(x.id in tr for x in rais):
+                        neg_guard = True
     if not neg_guard:
         o.fail(P, 'ResourceManager.reserve_resources', 'if amount < 0: raise ValueError', 'a negative requested amount is not rejected', file=RM.mod.path, line=fn.lineno)
     else:
